@@ -1,3 +1,4 @@
+import Swat4.Lemmas.FactsExtra06
 import Swat4.Lemmas.ReporterErr
 import Swat4.Lemmas.ReporterLenient
 import Swat4.Lemmas.ReporterPost
